@@ -724,6 +724,14 @@ static int addRequest(KSI_AsyncClient *c, KSI_AsyncHandle *handle, void *req,
 		goto cleanup;
 	}
 
+	/* A handle that came back while its request was only partly written (a pushed configuration answered it, it timed out)
+	 * is still held by the transport, which gives the connection up on its next round. Until then the handle cannot carry
+	 * a new request: the new bytes would be written right behind the written part of the old ones. */
+	if (handle->raw != NULL && handle->sentCount > 0 && handle->sentCount < handle->len) {
+		KSI_pushError(c->ctx, res = KSI_INVALID_STATE, "The previous request of the handle is partly sent; run the service first.");
+		goto cleanup;
+	}
+
 	/* Only one configuration request can be outstanding: its response bears no request id. */
 	if (hasConfig && c->serverConf != NULL && (c->serverConf->aggrReq != NULL || c->serverConf->extReq != NULL)) {
 		KSI_pushError(c->ctx, res = KSI_ASYNC_REQUEST_CACHE_FULL, "A configuration request is already pending.");
